@@ -8,7 +8,8 @@ A spec is a JSON list of items
 
   {"name": "newman_step",                      Lean name of the definition
    "file": "src/pyunicorn/core/network.py",
-   "func": "Network.newman_betweenness",       Class.method or function (`name#k`: k-th def of that name)
+   "func": "Network.newman_betweenness",       Class.method or function (`name#k`: k-th def of that name);
+                                               `.pyx` files: a top-level def, read line by line (see parse_pyx)
    "target": "step",                           assigned name | "return" | "subscript:<arr>"
                                                | "index:<arr>" (load) | "sindex:<arr>" = "store_index:<arr>"
                                                (index of a subscript that is assigned to) | "call:<f>#<i>"
@@ -43,6 +44,7 @@ be generated (a broken tie, settled by the failing-input search).
 import ast
 import json
 import os
+import re
 import sys
 from fractions import Fraction
 
@@ -51,6 +53,41 @@ REPO = os.environ.get("VERIF_REPO", "/repo")
 
 class Untranslatable(Exception):
     pass
+
+
+def parse_pyx(src):
+    """Cython source (`.pyx`): every top-level `def f(` becomes a FunctionDef whose body
+    holds those lines of f that are plain Python taken one by one (assignments, augmented
+    assignments, and the headers of `for`/`if`/`while`, given an empty `pass` body);
+    `cdef` declarations, signatures and whatever else does not parse are skipped.
+    Line numbers and column offsets refer to the real file."""
+    mod = ast.Module(body=[], type_ignores=[])
+    cur = None
+    for no, line in enumerate(src.split("\n"), 1):
+        m = re.match(r"(?:def|cpdef|cdef)\s+(?:[\w\[\], ]+\s+)?(\w+)\s*\(", line)
+        if m:
+            cur = ast.FunctionDef(
+                name=m.group(1), body=[], decorator_list=[], lineno=no, col_offset=0,
+                args=ast.arguments(posonlyargs=[], args=[], kwonlyargs=[], kw_defaults=[],
+                                   defaults=[]))
+            mod.body.append(cur)
+            continue
+        s = line.strip()
+        if cur is None or not s or s.startswith("#") or not line[0].isspace():
+            continue
+        try:
+            node = ast.parse(s + " pass" if s.endswith(":") else s).body[0]
+        except SyntaxError:
+            continue
+        indent = len(line) - len(line.lstrip())
+        for n in ast.walk(node):
+            if hasattr(n, "lineno"):
+                n.lineno += no - 1
+                n.end_lineno += no - 1
+                n.col_offset += indent
+                n.end_col_offset += indent
+        cur.body.append(node)
+    return mod
 
 
 def find_func(tree, qual):
@@ -265,7 +302,7 @@ def translate_item(item, cache):
     path = os.path.join(REPO, item["file"])
     if path not in cache:
         src = open(path).read()
-        cache[path] = (src, ast.parse(src))
+        cache[path] = (src, parse_pyx(src) if path.endswith(".pyx") else ast.parse(src))
     src, tree = cache[path]
     func = find_func(tree, item["func"])
     lineno, expr = find_stmt(func, item["target"], item.get("occurrence", 0))
